@@ -97,12 +97,16 @@ pub fn run(a: &Args, out: &mut impl Write) {
     for rd in [0u8, 9, 16, 17, 30, 31] {
         for hw in 0..4u8 {
             for imm in [0u16, 1, 0x8000, 0xffff, 0x1234, r.next() as u16] {
-                writeln!(out, "a64emit movz {:x} 1 {} {} | {:08x}", imm, hw, rd, gen::verif_emit_movz(imm, true, hw, rd)).unwrap();
-                writeln!(out, "a64emit movk {:x} 1 {} {} | {:08x}", imm, hw, rd, gen::verif_emit_movk(imm, true, hw, rd)).unwrap();
+                if let (Some(z), Some(k)) = (gen::verif_emit_movz(imm, true, hw, rd), gen::verif_emit_movk(imm, true, hw, rd)) {
+                    writeln!(out, "a64emit movz {:x} 1 {} {} | {:08x}", imm, hw, rd, z).unwrap();
+                    writeln!(out, "a64emit movk {:x} 1 {} {} | {:08x}", imm, hw, rd, k).unwrap();
+                }
             }
         }
-        writeln!(out, "a64emit br 0 0 0 {} | {:08x}", rd, gen::verif_emit_br(rd)).unwrap();
-        writeln!(out, "a64emit ret 0 0 0 {} | {:08x}", rd, gen::verif_emit_ret(rd)).unwrap();
+        if let (Some(b), Some(t)) = (gen::verif_emit_br(rd), gen::verif_emit_ret(rd)) {
+            writeln!(out, "a64emit br 0 0 0 {} | {:08x}", rd, b).unwrap();
+            writeln!(out, "a64emit ret 0 0 0 {} | {:08x}", rd, t).unwrap();
+        }
     }
     // ---- trampoline: each 16-bit chunk exhaustively (thorough) or sampled, in every position
     let chunk_step: u64 = if a.tier_thorough { 1 } else { 257 };
